@@ -269,6 +269,55 @@ theorem hist_cf_iff (E : AbstractPairing G1 G2 GT r) (a b : List ℤ) :
   unfold histCall
   cases (dot a b % (r : ℤ) == 0) <;> decide
 
+/-- the pairs a call of a `fehist` history names: the concatenation of the sub-lists behind the Miller-loop outputs it passes -/
+def fePairs (groups : List (List ℤ × List ℤ)) (idx : List ℕ) : List (ℤ × ℤ) :=
+  idx.flatMap fun j => match groups[j]? with
+    | some (a, b) => a.zip b
+    | none => []
+
+theorem dotSum_append (l₁ l₂ : List (ℤ × ℤ)) :
+    AbstractPairing.dotSum (l₁ ++ l₂) = AbstractPairing.dotSum l₁ + AbstractPairing.dotSum l₂ := by
+  simp [AbstractPairing.dotSum]
+
+/-- the exponent the model computes for a call = `Σ ab` over the concatenated sub-lists -/
+theorem feExponent_eq_dotSum (groups : List (List ℤ × List ℤ)) (idx : List ℕ) :
+    feExponent groups idx = AbstractPairing.dotSum (fePairs groups idx) := by
+  unfold feExponent
+  rw [dot_foldl_aux, zero_add]
+  induction idx with
+  | nil => simp [fePairs, AbstractPairing.dotSum]
+  | cons j idx ih =>
+    have hc : fePairs groups (j :: idx) = fePairs groups [j] ++ fePairs groups idx := by simp [fePairs]
+    rw [hc, dotSum_append, ← ih, List.map_cons, List.sum_cons]
+    congr 1
+    simp only [fePairs, List.flatMap_cons, List.flatMap_nil, List.append_nil]
+    cases groups[j]? with
+    | none => simp [AbstractPairing.dotSum]
+    | some ab => exact dot_eq_dotSum ab.1 ab.2
+
+/-- **histories on Miller-loop outputs are answered by value**: in the model's answer to a `fehist` line the entry of a call is `feCall`
+    of the sub-lists THIS call names - it does not depend on the FinalExponentiation calls made before (or after) it on the same
+    Miller-loop outputs -/
+theorem fehist_call_independent (r : ℕ) (groups : List (List ℤ × List ℤ)) (pre post : List (List ℕ)) (c : List ℕ) :
+    (feAnswers r groups (pre ++ c :: post))[pre.length]? = some (feCall r groups c) := by
+  simp [feAnswers]
+
+/-- … and its `value = 1` bit is set exactly when the abstract pairing product over the concatenated sub-lists is the identity:
+    `FinalExponentiation(M_{i₁}, M_{i₂}, …) = ∏ e([a]g1,[b]g2) = e(g1,g2)^(Σ ab)`, whatever was called before -/
+theorem fehist_one_iff (E : AbstractPairing G1 G2 GT r) (groups : List (List ℤ × List ℤ)) (idx : List ℕ) :
+    E.pairProd (fePairs groups idx) = 1 ↔ feCall r groups idx = "111:1" := by
+  rw [E.pairingCheck_iff_emod, ← feExponent_eq_dotSum]
+  unfold feCall
+  by_cases h : feExponent groups idx % (r : ℤ) = 0
+  · simp [h]; decide
+  · have hb : (feExponent groups idx % (r : ℤ) == 0) = false := by simpa using h
+    simp [h, hb]; decide
+
+/-- the value of a call: product over the named sub-lists = `e(g1,g2)^(exponent the model computes)` -/
+theorem fehist_value (E : AbstractPairing G1 G2 GT r) (groups : List (List ℤ × List ℤ)) (idx : List ℕ) :
+    E.pairProd (fePairs groups idx) = E.e E.g1 E.g2 ^ feExponent groups idx := by
+  rw [E.prod_pairs, feExponent_eq_dotSum]
+
 end model
 
 /-! ## final-exponentiation invariance under sub-field factors (fixed-Q variant) -/
